@@ -75,10 +75,12 @@ func TestC07(t *testing.T) {
 	for _, p := range []string{"", "AllowOverwrite", "DenyOverwrite"} {
 		alphaX = append(alphaX, Op{Kind: "regnode", ID: "f", NT: F, Policy: p, SameObj: true})
 	}
-	for _, p := range []string{"ExplicitEmpty", "BogusThenDeny"} {
+	for _, p := range []string{"ExplicitEmpty", "BogusThenDeny", "LowerDeny", "SpaceDeny"} {
 		alphaX = append(alphaX, Op{Kind: "regnode", ID: "f", NT: F, Policy: p}, Op{Kind: "regpipe", Type: "t0", Pid: "p0", IDs: []string{"f", "m", "k"}, Policy: p})
 	}
-	special := func(op Op) bool { return op.SameObj || op.Policy == "ExplicitEmpty" || op.Policy == "BogusThenDeny" }
+	special := func(op Op) bool {
+		return op.SameObj || op.Policy == "ExplicitEmpty" || op.Policy == "BogusThenDeny" || op.Policy == "LowerDeny" || op.Policy == "SpaceDeny"
+	}
 	prologue := []Op{{Kind: "regnode", ID: "f", NT: F}, {Kind: "regnode", ID: "m", NT: M}, {Kind: "regnode", ID: "k", NT: K}}
 	types := []string{"t0", "t1"}
 	depth := run.Pick(4, 5)
